@@ -795,6 +795,12 @@ def run(case):
         flavours.append((kind, relativize, items, q, s, want_t, flags))
         classes.append(f"zone:{kind}:{'rel' if relativize else 'abs'}")
 
+    documented = (
+        ("rcode", dns.xfr.TransferError),
+        ("backwards", dns.xfr.SerialWentBackwards),
+        ("use_tcp", dns.xfr.UseTCP),
+    )
+
     def check_stream(msgs, fault):
         flags = flavours[0][6]
         wires = [_render(ctx, m, qtype, flags, upper) for m in msgs]
@@ -832,6 +838,8 @@ def run(case):
             detail = {"fault": None if fault is None else list(fault), "zone": [kind, relativize], "model": repr(verdict)}
             if getattr(zone, "_write_txn", None) is not None:
                 raise Violation("txn-leak", f"{where}: the write transaction is still open after the transfer ended ({exc!r})", "write_txn", detail)
+            if is_udp and results and not results[0]:
+                raise Violation("udp-not-done", f"{where}: process_message() returned False for a UDP IXFR datagram: the client would wait for a second datagram", "udp", detail)
             if exc is not None:
                 ek = exc_key(exc) if not isinstance(exc, EOFError) else "EOFError@driver"
                 # (2) atomicity, unconditional
@@ -848,6 +856,17 @@ def run(case):
                 if verdict.ok:
                     clause = "valid-stream" if fault is None else "spurious-reject"
                     raise Violation(clause, f"{where}: the reference accepts this stream ({verdict!r}) but the transfer raised {type(exc).__name__}({exc})", ek, detail)
+                # the three documented error classes carry a meaning callers act on
+                # (inbound_xfr retries over TCP on UseTCP): they must match the reason, both ways
+                for reason, cls in documented:
+                    if (verdict.reason == reason) != isinstance(exc, cls):
+                        raise Violation(
+                            "error-kind",
+                            f"{where}: the reference says {verdict!r}, the transfer raised {type(exc).__name__}({exc})",
+                            f"{reason}:{type(exc).__name__}", detail,
+                        )
+                if verdict.reason == "rcode" and exc.rcode != [m.rcode for m in mm if m.rcode][0]:
+                    raise Violation("error-kind", f"{where}: TransferError.rcode is {exc.rcode}", "rcode-value", detail)
                 continue
             # no exception
             if not verdict.ok:
@@ -1050,6 +1069,10 @@ _REL_NAMES = [
     [b"www"], [b"a"], [b"b", b"a"], [b"*"], [b"ns1"], [b"sub"], [b"ns", b"sub"], [b"MiXed"],
     [b"mail"], [b"c", b"b", b"a"], [b"\\.;", b"odd"], [b"*", b"sub"],
 ]
+_STYLE_MIX = (
+    ["chain"] * 7 + ["condensed"] * 4 + ["axfr_style"] * 2 + ["axfr"] * 3 + ["uptodate"]
+    + ["udp_chain", "udp_condensed", "udp_axfr_style", "udp_uptodate", "udp_usetcp", "wrong_base", "behind"]
+)
 _TYPES = ["A", "A", "A", "AAAA", "TXT", "TXT", "MX", "NS", "NS", "CNAME", "SRV", "RRSIG", "CAA"]
 _TTLS = [0, 1, 60, 300, 300, 3600, 3600, 86400, 0x7FFFFFFF]
 
@@ -1064,9 +1087,14 @@ def _rdata(draw, tname, ctx):
     return tname, rec["wire"]
 
 
+def _pick(draw, n):
+    """uniform-ish choice: Hypothesis' own small-integer bias would starve the larger values"""
+    return draw(st.integers(0, 1 << 20)) % n
+
+
 @st.composite
 def _op(draw, nnames, ctx):
-    k = draw(st.integers(0, 11))
+    k = _pick(draw, 12)
     big = st.integers(0, 1 << 16)
     if k <= 4:
         tname = draw(st.sampled_from(_TYPES))
@@ -1085,12 +1113,8 @@ def _op(draw, nnames, ctx):
 
 @st.composite
 def transfer_cases(draw, tier):
-    style = draw(
-        st.sampled_from(
-            ["chain"] * 6 + ["condensed"] * 3 + ["axfr_style"] * 2 + ["axfr"] * 3 + ["uptodate"]
-            + ["udp_chain", "udp_condensed", "udp_axfr_style", "udp_uptodate", "udp_usetcp", "wrong_base", "behind"]
-        )
-    )
+    # drawn first and through an integer: Hypothesis biases sampled_from drawn late / often
+    style = _STYLE_MIX[draw(st.integers(0, 1 << 20)) % len(_STYLE_MIX)]
     origin = draw(st.sampled_from(_ORIGINS))
     nn = draw(st.integers(2, 5))
     rel = draw(st.lists(st.sampled_from(_REL_NAMES), min_size=nn, max_size=nn, unique_by=lambda n: W.name_key(n)))
@@ -1102,7 +1126,7 @@ def transfer_cases(draw, tier):
     v0 = []
     ns = [_rdata(draw, "NS", ctx)[1] for _ in range(draw(st.integers(1, 2)))]
     v0.append([0, "NS", draw(st.sampled_from(_TTLS)), ns])
-    for _ in range(draw(st.integers(2, 7))):
+    for _ in range(2 + _pick(draw, 7)):
         tname = draw(st.sampled_from(_TYPES))
         rds = []
         for _ in range(draw(st.sampled_from([1, 1, 2, 3]))):
@@ -1112,7 +1136,7 @@ def transfer_cases(draw, tier):
         if rds:
             v0.append([draw(st.integers(0, nnames - 1)), tname, draw(st.sampled_from(_TTLS)), rds])
     # serial chain: strictly increasing in RFC 1982 arithmetic from V0 to Vn
-    nsteps = draw(st.integers(1, 4))
+    nsteps = 1 + _pick(draw, 4)
     if style in ("wrong_base",):
         nsteps = max(nsteps, 2)
     serial0 = draw(
@@ -1129,7 +1153,7 @@ def transfer_cases(draw, tier):
         delta = draw(st.one_of(st.integers(1, 4), st.integers(1, 4), st.integers(1, room), st.just(room)))
         delta = min(delta, room)
         remaining -= delta
-        ops = draw(st.lists(_op(nnames, ctx), min_size=draw(st.sampled_from([0, 1, 2, 2])), max_size=5))
+        ops = [draw(_op(nnames, ctx)) for _ in range((0, 1, 2, 2, 3, 3, 4, 6)[_pick(draw, 8)])]
         steps.append({"delta": delta, "ops": ops})
     oob = []
     for _ in range(draw(st.sampled_from([0, 0, 1, 2]))):
@@ -1144,7 +1168,7 @@ def transfer_cases(draw, tier):
         else:
             wire = _rdata(draw, tname, ctx)[1]
         oob.append([draw(st.integers(0, 1 << 16)), G.hexl(owner), tname, 300, wire])
-    cutmode = draw(st.sampled_from(["none", "all", "some", "some", "some", "some"]))
+    cutmode = ("none", "all", "some", "some", "some", "some")[_pick(draw, 6)]
     zones = ZONE_KINDS if tier == "thorough" else draw(st.lists(st.sampled_from(ZONE_KINDS), min_size=2, max_size=2, unique_by=tuple))
     return {
         "origin": G.hexl(origin),
@@ -1167,7 +1191,7 @@ def transfer_cases(draw, tier):
         "oob": oob,
         "cutmode": cutmode,
         "cuts": draw(st.lists(st.integers(1, 1 << 16), min_size=1, max_size=6)) if cutmode == "some" else [],
-        "qmode": draw(st.sampled_from([0, 0, 1, 1, 2])),
+        "qmode": (0, 0, 1, 1, 2)[_pick(draw, 5)],
         "upper": draw(st.sampled_from([False, False, True])),
         "zones": [list(z) for z in zones],
         "faults": None,
@@ -1216,7 +1240,8 @@ def parts(tier):
     return [
         Part(
             "transfer", run, strategy=transfer_cases(tier),
-            n={"quick": 160, "thorough": 1600}, require=req, case_timeout_s=120.0,
+            n={"quick": 480, "thorough": 4800}, require=req, case_timeout_s=120.0,
+            shards={"quick": 16, "thorough": 16},
         ),
         Part("query", run_query, strategy=query_cases(), n={"quick": 800, "thorough": 8000}, require=qreq),
     ]
